@@ -10,10 +10,12 @@ def Extends (f u : Frag) : Prop :=
   u.id = f.id ∧ u.files = f.files ∧ u.rows = f.rows ∧ (∀ o ∈ f.del, o ∈ u.del) ∧ f.del.length < u.del.length ∧ u.WF
 
 /-- what the history knows about a committed transaction (in the form it was committed, i.e. after its rebase) relative to
-    the version it was committed on -/
+    the version it was committed on.  (A fragment that finish_delete_update promoted to "removed" keeps its stale entry in
+    updated_fragments; build_manifest drops removed fragments first, so that entry is dead.) -/
 def Logged (t : Table) (o : Txn) : Prop :=
   ((o.kind = .delete ∨ o.kind = .update) →
-      (o.updated.map (·.id)).Nodup ∧ (∀ u ∈ o.updated, ∃ f, t.get u.id = some f ∧ Extends f u) ∧ o.newId = 0) ∧
+      (o.updated.map (·.id)).Nodup ∧ (∀ u ∈ o.updated, u.id ∉ o.removed → ∃ f, t.get u.id = some f ∧ Extends f u) ∧
+        o.newId = 0) ∧
   (o.kind = .rewrite → o.newId = 0 ∨ ∀ f ∈ t.frags, f.id < o.newId)
 
 /-- every version is well formed and is `build_manifest` of its predecessor and the recorded transaction -/
@@ -124,12 +126,12 @@ theorem build_wf {t : Table} {o : Txn} (hw : t.WF) (hl : Logged t o) : (build t 
       rw [this]; exact hsub _
     · intro g hg
       simp only [List.mem_map, List.mem_filter] at hg
-      obtain ⟨f, ⟨hfm, _⟩, rfl⟩ := hg
+      obtain ⟨f, ⟨hfm, hfr⟩, rfl⟩ := hg
       rw [pickLast_eq_pickFirst hun]
       refine ⟨by rw [pickFirst_id]; exact (hf f hfm).1, ?_⟩
       rcases pick_mem_or o.updated f with h | h
       · rw [h]; exact (hf f hfm).2
-      · obtain ⟨_, _, he⟩ := hue _ h
+      · obtain ⟨_, _, he⟩ := hue _ h (by rw [pickFirst_id]; simpa using hfr)
         exact he.2.2.2.2.2
   | update =>
     obtain ⟨hun, hue, hz⟩ := hl.1 (.inr hk)
@@ -152,11 +154,11 @@ theorem build_wf {t : Table} {o : Txn} (hw : t.WF) (hl : Logged t o) : (build t 
         omega
     · intro g hg
       simp only [List.mem_append, List.mem_map, List.mem_filter] at hg
-      rcases hg with ⟨f, ⟨hfm, _⟩, rfl⟩ | hg
+      rcases hg with ⟨f, ⟨hfm, hfr⟩, rfl⟩ | hg
       · refine ⟨by rw [pickFirst_id]; exact Nat.lt_of_lt_of_le (hf f hfm).1 (newMax_ge t o), ?_⟩
         rcases pick_mem_or o.updated f with h | h
         · rw [h]; exact (hf f hfm).2
-        · obtain ⟨_, _, he⟩ := hue _ h
+        · obtain ⟨_, _, he⟩ := hue _ h (by rw [pickFirst_id]; simpa using hfr)
           exact he.2.2.2.2.2
       · exact ⟨newMax_gt t o g hg, (newFrag_wf t o g hg).1⟩
   | rewrite =>
@@ -195,13 +197,14 @@ def flagOf (rb : Rebase) (i : Nat) : Bool :=
     at all unless `needs_rewrite` was raised -/
 def Rel (f c : Frag) (nr : Bool) : Prop :=
   c.id = f.id ∧ c.files = f.files ∧ c.rows = f.rows ∧ (∀ o ∈ f.del, o ∈ c.del) ∧ f.del.length ≤ c.del.length ∧
-    (nr = false → c = f)
+    (nr = false → c = f) ∧ (nr = true → f.del.length < c.del.length)
 
 structure Tracks (t0 t : Table) (rb : Rebase) : Prop where
   frag : ∀ i ∈ rb.modified, ∀ f, t0.get i = some f → ∃ c, t.get i = some c ∧ Rel f c (flagOf rb i)
   nodup : (rb.initial.map (·.1.id)).Nodup
   init : ∀ e ∈ rb.initial, t0.get e.1.id = some e.1 ∧ e.1.id ∈ rb.modified
   cover : rb.affected.isSome → ∀ i ∈ rb.modified, ∀ f, t0.get i = some f → ∃ nr, lookupInit rb.initial i = some (f, nr)
+  noflag : rb.affected = none → ∀ e ∈ rb.initial, e.2 = false
 
 theorem lookupInit_map (init : List (Frag × Bool)) (h : Frag × Bool → Bool) (i : Nat) :
     lookupInit (init.map (fun e => (e.1, h e))) i = (lookupInit init i).map (fun e => (e.1, h e)) := by
@@ -237,7 +240,7 @@ theorem tracks_step {t0 t : Table} {rb rb' : Rebase} {o : Txn}
   | reserve =>
     simp only [hk] at hc
     injection hc with hc; subst hc
-    refine ⟨⟨?_, htr.nodup, htr.init, htr.cover⟩, rfl, rfl, rfl⟩
+    refine ⟨⟨?_, htr.nodup, htr.init, htr.cover, htr.noflag⟩, rfl, rfl, rfl⟩
     intro i hi f hf
     obtain ⟨c, hc1, hc2⟩ := htr.frag i hi f hf
     refine ⟨c, ?_, hc2⟩
@@ -248,7 +251,7 @@ theorem tracks_step {t0 t : Table} {rb rb' : Rebase} {o : Txn}
     · cases hc
     · rename_i hany
       injection hc with hc; subst hc
-      refine ⟨⟨?_, htr.nodup, htr.init, htr.cover⟩, rfl, rfl, rfl⟩
+      refine ⟨⟨?_, htr.nodup, htr.init, htr.cover, htr.noflag⟩, rfl, rfl, rfl⟩
       intro i hi f hf
       obtain ⟨c, hc1, hc2⟩ := htr.frag i hi f hf
       refine ⟨c, ?_, hc2⟩
@@ -266,7 +269,7 @@ theorem tracks_step {t0 t : Table} {rb rb' : Rebase} {o : Txn}
     · -- no fragment in common
       rename_i hno
       injection hc with hc; subst hc
-      refine ⟨⟨?_, htr.nodup, htr.init, htr.cover⟩, rfl, rfl, rfl⟩
+      refine ⟨⟨?_, htr.nodup, htr.init, htr.cover, htr.noflag⟩, rfl, rfl, rfl⟩
       intro i hi f hf
       obtain ⟨c, hc1, hc2⟩ := htr.frag i hi f hf
       refine ⟨c, ?_, hc2⟩
@@ -293,7 +296,7 @@ theorem tracks_step {t0 t : Table} {rb rb' : Rebase} {o : Txn}
               cases h : rb.affected with
               | none => simp [h] at haff
               | some _ => rfl
-            refine ⟨⟨?_, ?_, ?_, ?_⟩, rfl, rfl, rfl⟩
+            refine ⟨⟨?_, ?_, ?_, ?_, ?_⟩, rfl, rfl, rfl⟩
             · intro i hi f hf
               obtain ⟨c, hc1, hc2⟩ := htr.frag i hi f hf
               obtain ⟨nr, hnr⟩ := htr.cover haff' i hi f hf
@@ -314,12 +317,12 @@ theorem tracks_step {t0 t : Table} {rb rb' : Rebase} {o : Txn}
                 rfl
               by_cases hex : ∃ u ∈ o.updated, u.id = i
               · obtain ⟨u, hu, hui⟩ := hex
-                obtain ⟨c', hc', hext⟩ := hue u hu
+                obtain ⟨c', hc', hext⟩ := hue u hu (by rw [hui]; exact hr)
                 rw [hui, hc1] at hc'
                 injection hc' with hc'; subst hc'
                 refine ⟨u, get_build_updated hkk hun hc1 hr hu hui, ?_⟩
                 obtain ⟨e1, e2, e3, e4, e5, e6⟩ := hext
-                obtain ⟨r1, r2, r3, r4, r5, _⟩ := hc2
+                obtain ⟨r1, r2, r3, r4, r5, _, _⟩ := hc2
                 have hne : u.dfile ≠ f.dfile :=
                   dfile_ne (get_wf hw0 hf) e6 (Nat.lt_of_le_of_lt r5 e5)
                 have hany : o.updated.any (fun u => u.id == f.id && u.dfile != f.dfile) = true := by
@@ -327,7 +330,7 @@ theorem tracks_step {t0 t : Table} {rb rb' : Rebase} {o : Txn}
                   exact ⟨u, hu, by simp [hui, hfid, hne]⟩
                 rw [hflag', hany, Bool.or_true]
                 exact ⟨by rw [e1, r1], by rw [e2, r2], by rw [e3, r3], fun x hx => e4 x (r4 x hx), by omega,
-                  fun h => by cases h⟩
+                  (fun h => by cases h), (fun _ => by omega)⟩
               · have hnone : ∀ u ∈ o.updated, u.id ≠ i := fun u hu e => hex ⟨u, hu, e⟩
                 refine ⟨c, get_build_untouched hc1 hr hnone, ?_⟩
                 have hany : o.updated.any (fun u => u.id == f.id && u.dfile != f.dfile) = false := by
@@ -349,5 +352,98 @@ theorem tracks_step {t0 t : Table} {rb rb' : Rebase} {o : Txn}
               rw [lookupInit_map rb.initial
                 (fun e => e.2 || o.updated.any (fun u => u.id == e.1.id && u.dfile != e.1.dfile)) i, hnr]
               exact ⟨_, rfl⟩
+            · intro hnone
+              simp only at hnone
+              rw [hnone] at haff'
+              cases haff'
+
+theorem tracks_all {t0 : Table} (hw0 : t0.WF) : ∀ {l : List (Txn × Table)} {t : Table} {rb rb' : Rebase},
+    Chain t l → Tracks t0 t rb → checkAll rb (l.map (·.1)) = .ok rb' →
+    Tracks t0 (lastTable t l) rb' ∧ rb'.txn = rb.txn ∧ rb'.modified = rb.modified ∧ rb'.affected = rb.affected := by
+  intro l
+  induction l with
+  | nil =>
+    intro t rb rb' _ htr hc
+    simp only [List.map_nil, checkAll] at hc
+    injection hc with hc; subst hc
+    exact ⟨htr, rfl, rfl, rfl⟩
+  | cons e rest ih =>
+    intro t rb rb' hch htr hc
+    obtain ⟨_, hl, he, hrest⟩ := hch
+    simp only [List.map_cons, checkAll] at hc
+    cases h1 : checkTxn rb e.1 with
+    | error x => rw [h1] at hc; cases hc
+    | ok rb1 =>
+      rw [h1] at hc
+      obtain ⟨htr1, a1, a2, a3⟩ := tracks_step hw0 hl htr h1
+      rw [← he] at htr1
+      obtain ⟨htr2, b1, b2, b3⟩ := ih hrest htr1 hc
+      exact ⟨htr2, b1.trans a1, b2.trans a2, b3.trans a3⟩
+
+theorem rel_refl (f : Frag) : Rel f f false :=
+  ⟨rfl, rfl, rfl, fun _ h => h, Nat.le_refl _, fun _ => rfl, fun h => by cases h⟩
+
+theorem flagOf_false {rb : Rebase} (h : ∀ e ∈ rb.initial, e.2 = false) (i : Nat) : flagOf rb i = false := by
+  unfold flagOf
+  cases hl : lookupInit rb.initial i with
+  | none => rfl
+  | some e => exact h e (List.mem_of_find?_eq_some hl)
+
+theorem lookupInit_mk {l : List Frag} (hn : (l.map (·.id)).Nodup) {f : Frag} (hf : f ∈ l) :
+    lookupInit (l.map (fun f => (f, false))) f.id = some (f, false) := by
+  unfold lookupInit
+  rw [List.find?_map]
+  have : ((fun e : Frag × Bool => e.1.id == f.id) ∘ fun f => (f, false)) = fun g : Frag => g.id == f.id := rfl
+  rw [this, find_of_mem hn hf]
+  rfl
+
+/-- TransactionRebase::try_new starts in a state that tracks the table of the read version -/
+theorem tracks_init {t0 : Table} (hw0 : t0.WF) (T : Txn) (aff : Option (List Addr)) :
+    Tracks t0 t0 (tryNew t0 T aff) ∧ (tryNew t0 T aff).txn = T ∧ (tryNew t0 T aff).modified = modifiedIds T := by
+  have hflag : ∀ i, flagOf (tryNew t0 T aff) i = false := by
+    intro i
+    apply flagOf_false
+    unfold tryNew
+    split
+    · simp
+    · intro e he
+      simp only [List.mem_map] at he
+      obtain ⟨f, _, rfl⟩ := he
+      rfl
+  have hfrag : ∀ i ∈ (tryNew t0 T aff).modified, ∀ f, t0.get i = some f →
+      ∃ c, t0.get i = some c ∧ Rel f c (flagOf (tryNew t0 T aff) i) :=
+    fun i _ f hf => ⟨f, hf, by rw [hflag i]; exact rel_refl f⟩
+  refine ⟨⟨hfrag, ?_, ?_, ?_, ?_⟩, ?_, ?_⟩
+  all_goals unfold tryNew
+  all_goals split
+  · simp
+  · simp only [List.map_map]
+    exact hw0.1.sublist (List.Sublist.map _ List.filter_sublist)
+  · simp
+  · intro e he
+    simp only [List.mem_map, List.mem_filter] at he
+    obtain ⟨f, ⟨hf, hm⟩, rfl⟩ := he
+    exact ⟨get_of_mem hw0 hf, by simpa using hm⟩
+  · simp
+  · have hsub : ((t0.frags.filter (fun f => (modifiedIds T).contains f.id)).map (·.id)).Nodup :=
+      hw0.1.sublist (List.Sublist.map _ List.filter_sublist)
+    intro _ i hi f hf
+    obtain ⟨hfm, hfi⟩ := get_some hf
+    refine ⟨false, ?_⟩
+    have hmem : f ∈ t0.frags.filter (fun f => (modifiedIds T).contains f.id) := by
+      simp only [List.mem_filter]
+      exact ⟨hfm, by rw [hfi]; simpa using hi⟩
+    have := lookupInit_mk hsub hmem
+    rw [hfi] at this
+    exact this
+  · simp
+  · intro _ e he
+    simp only [List.mem_map] at he
+    obtain ⟨f, _, rfl⟩ := he
+    rfl
+  · rfl
+  · rfl
+  · rfl
+  · rfl
 
 end LanceModel.C04
